@@ -150,11 +150,16 @@ func (l *listener) Listen() (err error) {
 		return mangos.ErrClosed
 	default:
 	}
-	l.l, err = l.lc.Listen(context.Background(), "tcp", l.addr)
+	l.lock.Lock()
+	lc := l.lc
+	l.lock.Unlock()
+	l.l, err = lc.Listen(context.Background(), "tcp", l.addr)
 	if err != nil {
 		return
 	}
+	l.lock.Lock()
 	l.bound = l.l.Addr()
+	l.lock.Unlock()
 	go func() {
 		for {
 			conn, err := l.l.Accept()
@@ -182,7 +187,10 @@ func (l *listener) Listen() (err error) {
 }
 
 func (l *listener) Address() string {
-	if b := l.bound; b != nil {
+	l.lock.Lock()
+	b := l.bound
+	l.lock.Unlock()
+	if b != nil {
 		return "tcp://" + b.String()
 	}
 	return "tcp://" + l.addr
